@@ -78,8 +78,12 @@ RULES = {
     "comparing their keys with the domains of nodes and functions - the IR spells the default domain '' there, while an import may "
     "be keyed `ai.onnx` - so the function handles the alias (it names the constant 'ai.onnx' or passes the key through a domain "
     "normaliser) before the comparison; a plain `set(opset_imports) - used_domains` deletes the import every ONNX operator of the model needs",
+    "R18": "an input leaves a graph only as that graph's own initializer (rule shared with C14-R11): where a pass rebuilds `<g>.inputs` from "
+    "a filtered copy, the filter asks the initializers of `<g>` itself - by value, or by a set built from `<g>.initializers` alone; a "
+    "set of names gathered over all graphs of the model also drops a loop-carried input that happens to share its name with an "
+    "initializer of a sibling body, and the model no longer computes (the checker rejects it)",
 }
-FLOORS = {"R1": 5, "R2": 6, "R3": 8, "R4": 6, "R5": 8, "R6": 2, "R7": 1, "R8": 10, "R9": 1, "R10": 3, "R11": 1, "R12": 2, "R13": 2, "R14": 2, "R15": 2, "R16": 100, "R17": 1}
+FLOORS = {"R1": 5, "R2": 6, "R3": 8, "R4": 6, "R5": 8, "R6": 2, "R7": 1, "R8": 10, "R9": 1, "R10": 3, "R11": 1, "R12": 2, "R13": 2, "R14": 2, "R15": 2, "R16": 100, "R17": 1, "R18": 1}
 EXPLANATION = (
     "Four structural necessary conditions of semantic preservation that the pass mechanisms rely on: guarded removal, "
     "interface-size preservation (call-site scan with receiver typing), data-dependence of the equivalence keys on all "
@@ -1250,6 +1254,9 @@ def rule_r17(ctx):
 
 
 def run(ctx):
+    from . import c14
+
+    c14.rule_r11(ctx, rule="R18")
     rule_r17(ctx)
     rule_r16(ctx)
     rule_r15(ctx)
